@@ -12,7 +12,7 @@ trap 'git -C /repo checkout -- . ; git -C /repo clean -fdq' EXIT
 echo "== repo tests: $(/venv/bin/python -m pytest -q -p no:cacheprovider -x 2>&1 | tail -1)"
 cd /verif
 for c in "$@"; do
-  out=$(VERIF_NOCONFIRM=${NOCONFIRM:-0} timeout 1800 ./check "$c" --tier "$TIER" 2>&1)
+  out=$(VERIF_EVIDENCE_DIR=/dev/shm/try_evidence VERIF_NOCONFIRM=${NOCONFIRM:-0} timeout 1800 ./check "$c" --tier "$TIER" 2>&1)
   rc=$?
   echo "== $c rc=$rc $(echo "$out" | grep -c '^VIOLATION') violation line(s); $(echo "$out" | tail -1)"
   echo "$out" | grep -A2 '^VIOLATION' | grep -v '^--' | cut -c1-260 | head -9
